@@ -149,8 +149,13 @@ def check_case(case, stats=None, K=oracle.K_QUICK):
 def cases(draw, nvec, all256=False):
     cfg = programs.Cfg(call_bias=25, tail_call_bias=40, max_funcs=4, max_params=3, d5_args=draw(st.booleans()),
                        nested_arg_pct=draw(st.sampled_from([20, 70])))
-    k = draw(st.integers(0, 5))
-    if k == 5:
+    k = draw(st.integers(0, 6))
+    if k == 6:
+        # C06's call graphs: calls with arguments nested in any argument position, several call sites per function
+        # (so that calls stay real calls under the default vector as well), early returns around inner calls
+        from ..gen import callgraph
+        c = draw(st.one_of(callgraph.callgraph_cases(nenv=1), callgraph.chain_cases(nenv=1)))
+    elif k == 5:
         # programs split over library modules (source comments must come from the right file, labels are qualified)
         from . import c13
         mc = draw(c13.cases())
